@@ -664,6 +664,9 @@ func (fv *funcVerifier) callRepo(st *State, call *ast.CallExpr, fn *types.Func) 
 	}
 	args := fv.evalArgs(st, call, sig)
 	key := FuncKey(fn)
+	if hasRecv {
+		fv.checkCalleeLocks(st, call, fn, recv)
+	}
 	if sp := fv.prog.Specs.Funcs[key]; sp != nil && (len(sp.Requires) > 0 || len(sp.Ensures) > 0 || sp.Modifies != nil || sp.Pure || len(sp.Sets) > 0 || len(sp.GhostExit) > 0) {
 		return fv.callWithSpec(st, call, fn, sp, recv, hasRecv, args)
 	}
